@@ -19,7 +19,7 @@ EXPLANATION = (
     'separate obligation per dict-containing type (finding class dict-missing-value-json).'
 )
 TYPES_PY = 'hail/python/hail/expr/types.py'
-GROUP = 4
+GROUP = 3
 
 
 def encode_sources(R):
